@@ -23,6 +23,7 @@ type codec struct {
 	tables   map[*ssa.Global]*constTable
 	typeName map[int64]string // replication.Type* constants
 	mu       sync.Mutex
+	followed map[*ssa.Function]bool // functions reached by delegation
 }
 
 func typeConsts(w *World) map[int64]string {
@@ -42,7 +43,7 @@ func typeConsts(w *World) map[int64]string {
 
 func resolveCodec(a *A, rule string) *codec {
 	w := a.W
-	cd := &codec{w: w, tables: map[*ssa.Global]*constTable{}, typeName: typeConsts(w)}
+	cd := &codec{w: w, tables: map[*ssa.Global]*constTable{}, typeName: typeConsts(w), followed: map[*ssa.Function]bool{}}
 	cd.valFn = w.fn(w.Repl, "CellBytes")
 	if !a.need(cd.valFn != nil && len(cd.valFn.Params) == 5, rule, "replication.CellBytes(data,pos,typ,metadata,unsigned)") {
 		return nil
@@ -149,14 +150,88 @@ func (cd *codec) bind(f *ssa.Function, s spec) map[ssa.Value]constant.Value {
 	return m
 }
 
-func (cd *codec) specLen(s spec) *Result { return Specialize(cd.lenFn, cd.bind(cd.lenFn, s), cd.tables) }
-func (cd *codec) specVal(s spec) *Result { return Specialize(cd.valFn, cd.bind(cd.valFn, s), cd.tables) }
+func (cd *codec) specLen(s spec) *Result {
+	return cd.follow(Specialize(cd.lenFn, cd.bind(cd.lenFn, s), cd.tables), cd.paramNames(cd.lenFn), 0)
+}
+func (cd *codec) specVal(s spec) *Result {
+	return cd.follow(Specialize(cd.valFn, cd.bind(cd.valFn, s), cd.tables), cd.paramNames(cd.valFn), 0)
+}
+
+func (cd *codec) paramNames(f *ssa.Function) map[ssa.Value]string {
+	m := map[ssa.Value]string{f.Params[0]: "data", f.Params[1]: "pos"}
+	if len(f.Params) > 4 {
+		m[f.Params[4]] = "unsigned"
+	}
+	return m
+}
+
+// follow resolves delegation: when every reachable return of the specialised function is `return g(args...)` for one
+// call of an in-package function g, the case lives in g. The result then describes g specialised on the constant
+// arguments, with the argument terms substituted for g's parameters (so terms stay expressed over data/pos).
+func (cd *codec) follow(r *Result, names map[ssa.Value]string, depth int) *Result {
+	if depth >= maxInline || len(r.Returns) == 0 {
+		return r
+	}
+	var call *ssa.Call
+	for _, ret := range r.Returns {
+		if len(ret.Results) == 0 {
+			return r
+		}
+		for i, res := range ret.Results {
+			ex, ok := res.(*ssa.Extract)
+			if !ok || ex.Index != i {
+				return r
+			}
+			c, ok := ex.Tuple.(*ssa.Call)
+			if !ok || (call != nil && c != call) {
+				return r
+			}
+			call = c
+		}
+	}
+	cal := call.Common().StaticCallee()
+	if cal == nil || cal.Blocks == nil || cal.Pkg != r.Fn.Pkg || cal == r.Fn || cal.Signature.Results().Len() != len(r.Returns[0].Results) {
+		return r
+	}
+	t := newTB(r)
+	for k, v := range names {
+		t.names[k] = v
+	}
+	t.tables = cd.tables
+	bind := map[ssa.Value]constant.Value{}
+	subst := map[ssa.Value]aff{}
+	ssub := map[ssa.Value]string{}
+	for i, a := range call.Common().Args {
+		if i >= len(cal.Params) {
+			break
+		}
+		p := cal.Params[i]
+		if l := r.get(a); l.k == cst && !l.nilc && l.tbl == nil && l.v != nil && l.v.Kind() != constant.Unknown {
+			bind[p] = l.v
+		}
+		if isIntegerType(a.Type()) {
+			subst[p] = t.term(a)
+		} else if b, ok := a.Type().Underlying().(*types.Basic); ok && b.Info()&types.IsBoolean != 0 {
+			if n, ok := t.names[a]; ok {
+				ssub[p] = n
+			}
+		} else {
+			ssub[p] = t.sliceTerm(a)
+		}
+	}
+	sub := specializeAt(cal, bind, cd.tables, depth+1)
+	sub.Subst, sub.SSub = subst, ssub
+	cd.mu.Lock()
+	cd.followed[cal] = true
+	cd.mu.Unlock()
+	return cd.follow(sub, nil, depth+1)
+}
 
 // successReturns: reachable returns whose error operand is the nil constant.
 func successReturns(r *Result, errIdx int) []*ssa.Return {
 	var out []*ssa.Return
 	for _, ret := range r.Returns {
-		if errIdx < len(ret.Results) && isNilConst(ret.Results[errIdx]) {
+		if errIdx < len(ret.Results) && r.isNil(ret.Results[errIdx]) {
 			out = append(out, ret)
 		}
 	}
@@ -168,6 +243,9 @@ func lenTerm(r *Result, v ssa.Value, f *ssa.Function) string {
 	t := newTB(r)
 	t.names[f.Params[0]] = "data"
 	t.names[f.Params[1]] = "pos"
+	if len(f.Params) > 4 {
+		t.names[f.Params[4]] = "unsigned"
+	}
 	return t.term(v).String()
 }
 
@@ -176,7 +254,7 @@ func lenTerm(r *Result, v ssa.Value, f *ssa.Function) string {
 func (cd *codec) handledTypes(f *ssa.Function, errIdx int) map[int64]bool {
 	out := map[int64]bool{}
 	for t := int64(0); t < 256; t++ {
-		r := Specialize(f, cd.bind(f, spec{t, -1}), cd.tables)
+		r := cd.follow(Specialize(f, cd.bind(f, spec{t, -1}), cd.tables), cd.paramNames(f), 0)
 		if len(successReturns(r, errIdx)) > 0 {
 			out[t] = true
 		}
